@@ -37,8 +37,16 @@ class Lines:
             if l.startswith("|| ") and self.items:
                 ln, prev = self.items[-1]
                 self.items[-1] = (ln, prev + " " + l)
-            else:
-                self.items.append((i + 1, l))
+                continue
+            # equivalent spellings are brought to one form: `} else {` / `} else if (..) {` on one line; a loop counter declared with the
+            # other variables (`for (i1 = 0; ..; i1++)`) instead of in the loop header
+            if l.startswith("} else"):
+                self.items.append((i + 1, "}"))
+                l = l[2:]
+            m = re.match(r"^for \((i\d+) = 0; (.*); \1\+\+\) \{$", l)
+            if m:
+                l = f"for (guint32 {m.group(1)} = 0; {m.group(2)}; ++{m.group(1)}) {{"
+            self.items.append((i + 1, l))
         self.pos = 0
 
     def peek(self):
@@ -67,6 +75,14 @@ def parse_cond(text, line):
             out.append(("zlib-ok",))
             continue
         m = RE_COND.match(p)
+        if m and re.fullmatch(r"[A-Z][A-Z0-9_]*", m.group(1)) and not re.fullmatch(r"[A-Z][A-Z0-9_]*", m.group(3)) and m.group(2) in ("==", "!="):
+            # `CONSTANT == variable`: the comparison is symmetric
+            out.append((m.group(3), m.group(2), m.group(1)))
+            continue
+        m2 = re.match(r"^\((\w+) & (\w+)\) != 0$", p)
+        if m2:
+            out.append((m2.group(1), "&", m2.group(2)))  # `(x & FLAG) != 0` is the truth value of `x & FLAG`
+            continue
         if not m:
             raise WsError(f"line {line}: unrecognised condition `{p}`")
         out.append((m.group(1), m.group(2), m.group(3)))
